@@ -146,7 +146,7 @@ def check(ctx):
                           "_build_function_definition sees the function's own name registered in the body scope", file=px.rel, function=f"CParser.{b}")
     allm = set(WC.current()) | set(WC.load_ref())
     n = WCm.run_group(ctx, "R-C04.3", allm - WCm.HELPERS | {"_parse_enumerator"},
-                      lambda label, field: (label in ("call:_add_identifier", "call:_add_typedef_name") and field == "name") or (label == "call:_build_declarations" and field == "typedef_namespace"),
+                      lambda label, field: (label in ("call:_add_identifier", "call:_add_typedef_name") and field == "p0") or (label == "call:_build_declarations" and field == "p2"),      # (name, coord) / (spec, decls, typedef_namespace)
                       "registration of declared names deviates from the reviewed table", returns=False, appends=False,
                       label_filter=lambda lab: lab in ("call:_add_identifier", "call:_add_typedef_name", "call:_build_declarations"))
     ctx.require_instances("R-C04.3", 8)
